@@ -40,4 +40,38 @@ mod verif_witness_c18 {
         }
         assert_eq!(bad, 0, "{} operation sequences disagree with the reference FIFO bounded map", bad);
     }
+
+    /// the table the search actually holds: HashMapTranspositionTable through the TranspositionTable trait, same model
+    #[test]
+    fn verif_witness_c18_wrapper() {
+        use super::transposition::{HashMapTranspositionTable, NodeType, TranspositionTable, TtEntry};
+        use crate::engine::search::ValuedMove;
+        let mut bad = 0;
+        for cap in 1usize..=4 {
+            for seed in 0u64..25 {
+                let mut table = HashMapTranspositionTable::new(cap);
+                let mut model = Reference { cap, order: vec![], vals: vec![] };
+                let mut x = seed.wrapping_mul(0xD1B5_4A32_D192_ED03).wrapping_add(cap as u64);
+                let mut trace = Vec::new();
+                for step in 0..50u32 {
+                    x ^= x << 13; x ^= x >> 7; x ^= x << 17;
+                    let key = (x >> 8) % 6;
+                    if x % 19 == 0 { table.clear(); model.clear(); trace.push("clear".to_string()); }
+                    else {
+                        table.put(key, TtEntry::new(ValuedMove::leaf(step as i32), key, step as usize, step as i32, NodeType::Exact));
+                        model.put(key, step);
+                        trace.push(format!("put({},{})", key, step));
+                    }
+                    let mut ok = table.len() == model.vals.len() && table.len() <= cap;
+                    for k in 0..6u64 { ok = ok && table.get(k).map(|e| e.value as u32) == model.get(k); }
+                    if !ok {
+                        if bad < 3 { println!("FAILING-INPUT: HashMapTranspositionTable capacity={} operations={:?}: disagrees with the FIFO map model", cap, trace); }
+                        bad += 1;
+                        break;
+                    }
+                }
+            }
+        }
+        assert_eq!(bad, 0);
+    }
 }
